@@ -533,6 +533,9 @@ luaL_setfuncs({LUA_state_var}, {LUA_class_reg}, 0);
             fmt_arg.c_var = arg_name
             fmt_arg.cxx_var = arg_name
             fmt_arg.lua_var = "SH_Lua_" + arg_name
+            # The typemap's c_to_cxx uses c_const (set by wrapc.py only
+            # when the C wrapper is written too).
+            fmt_arg.c_const = "const " if arg.const else ""
             fmt_arg.c_var_len = "L" + arg_name
             if arg.is_pointer():
                 fmt_arg.c_deref = " *"
